@@ -178,7 +178,9 @@ int fclose(FILE *f)
       if (keep < vp_node_len(h->slot)) { vp_node_set_len(h->slot, keep); }
       return EOF;
    }
-   return (h->wr && h->err) ? EOF : 0;
+   /* glibc: an earlier write error only sets the stream's error indicator (ferror); fclose() itself fails only
+    * when its own flush/close fails - confirmed on the binary with a short write under RLIMIT_FSIZE */
+   return 0;
 }
 size_t fread(void *p, size_t size, size_t n, FILE *f)
 {
